@@ -1,9 +1,9 @@
 import Driver.Util
-import ReplicatModel.LocalFS
-open Lean Replicat Replicat.LocalFS
+import ReplicatModel.LocalUpload
+open Lean Replicat Replicat.LocalUpload
 namespace Driver
 
-def parseFiles (j : Json) : Except String (List (LocalFS.Path × Bytes)) := do
+def parseFiles (j : Json) : Except String (List (LocalUpload.Path × Bytes)) := do
   (← j.getArr?).toList.mapM fun e => do
     match (← e.getArr?).toList with
     | [p, d] => pure (← p.getStr?, ← unhex (← d.getStr?))
@@ -13,10 +13,10 @@ def insertSorted (x : String × String) : List (String × String) → List (Stri
   | [] => [x]
   | y :: ys => if x.1 < y.1 then x :: y :: ys else y :: insertSorted x ys
 
-def sortFiles (l : List (LocalFS.Path × Bytes)) : List (String × String) :=
+def sortFiles (l : List (LocalUpload.Path × Bytes)) : List (String × String) :=
   (l.map (fun e => (e.1, hex e.2))).foldl (fun acc x => insertSorted x acc) []
 
-def filesJson (l : List (LocalFS.Path × Bytes)) : Json :=
+def filesJson (l : List (LocalUpload.Path × Bytes)) : Json :=
   Json.arr ((sortFiles l).map (fun e => Json.arr #[Json.str e.1, Json.str e.2])).toArray
 
 /-- requests `localfs.*`:
@@ -37,8 +37,8 @@ def handleLocalFS (op : String) (j : Json) : Except String Json := do
       | .ok v => (match v.getNat? with | .ok n => n | .error _ => steps.length)
       | .error _ => steps.length
     let fs0 : FS := ⟨files, []⟩
-    let fs := if cleanup then LocalFS.run fs0 (failedAttempt dir tmp pieces k) else LocalFS.run fs0 (steps.take k)
-    let listing := (LocalFS.listFiles fs "").foldl (fun acc x => insertSorted (x, "") acc) []
+    let fs := if cleanup then LocalUpload.run fs0 (failedAttempt dir tmp pieces k) else LocalUpload.run fs0 (steps.take k)
+    let listing := (LocalUpload.listFiles fs "").foldl (fun acc x => insertSorted (x, "") acc) []
     pure (Json.mkObj [
       ("files", filesJson fs.files),
       ("listing", Json.arr (listing.map (fun e => Json.str e.1)).toArray),
